@@ -1,5 +1,8 @@
 use alloc::sync::Arc;
 use alloc::task::Wake;
+#[cfg(fc_verif_loom)]
+use loom::sync::Mutex;
+#[cfg(not(fc_verif_loom))]
 use std::sync::Mutex;
 
 use super::ReadinessArray;
